@@ -365,9 +365,14 @@ class Verifier:
                     continue
                 results.append(self.discharge(ctx, f"{sname}/{lab}", v, path))
             for lab, pexpr in contract.fresh_result_:
-                node, _ = parse_clause(pexpr)
+                each = pexpr.startswith("each:")
+                node, _ = parse_clause(pexpr[5:] if each else pexpr)
                 v = self.eval_spec(ctx, sfr, node)
-                ok = isinstance(v, Ref) and v.id >= entry_id
+                if each:
+                    from .intrinsics import iterate
+                    ok = all(isinstance(x, Ref) and x.id >= entry_id for x in iterate(ctx, v))
+                else:
+                    ok = isinstance(v, Ref) and v.id >= entry_id
                 results.append(self.discharge(ctx, f"{sname}/{lab}", ok, path, kind="fresh"))
         else:
             sfr.locals["exc_type"] = exc.tname
